@@ -20,11 +20,18 @@ CONTRACTS = {
     (R, 'clause_satisfied'): {
         'assumed': 'clause_satisfied(cls, assignments) is a pure test: psat(cls) - whether every planted assignment of this call satisfies the clause',
         'params': {'cls': 'iseq', 'assignments': 'any'}, 'returns_expr': 'psat(cls)'},
+    # the dense enumeration: for every k-subset of 1..n (itertools order) and every sign pattern, the clause if it is
+    # compatible with the planted assignments; hence (Lean all_clauses_spec) every compatible clause exactly once
     (R, 'all_clauses'): {
-        'assumed': 'all_clauses enumerates, once each, exactly the k-clauses over 1..n (variables increasing) compatible with the planted '
-                   'assignments: navail_p(k, n) of them (itertools.combinations x product; decided by the bounded tier of C13)',
-        'params': {'k': 'int', 'n': 'int', 'planted_assignments': 'any'}, 'returns': 'cseq',
-        'ensures': ['cdistinct(result)', 'cvalid(k, n, result)', 'clen(result) == navail_p(k, n)']},
+        'property': ['C13'],
+        'params': {'k': 'int', 'n': 'int', 'planted_assignments': 'any'},
+        'requires': ['k >= 0', 'n >= 0'],
+        'yield_acc': True, 'returns': 'cseq', 'raises': {},
+        'loops': {0: {'counter': '_ito', 'inv': ['_ys == ydom(k, n, _ito)']},
+                  1: {'inv': ['_ys == capp(ydom(k, n, _ito), ysign(k, domain, _it))']}},
+        'ensures': ['result == ydom(k, n, clen(combs(apseq(1, n), k)))',
+                    'cdistinct(result)', 'cvalid(k, n, result)', 'clen(result) == navail_p(k, n)'],
+    },
     # the sampler itself: m pairwise distinct clauses, each over k distinct variables of 1..n (increasing) and compatible with the
     # planted assignments, for EVERY outcome of the random generator (sparse rejection sampling, then the dense fallback);
     # ValueError exactly when fewer than m such clauses exist
